@@ -82,16 +82,23 @@ def run(ctx):
     if not mc["ascoded"]["error"]:
         raise Inconclusive("the as-coded model no longer violates any property: the named deviations need review")
     hs = histories(ctx, gens["one"])
+    def has(h, pred):
+        return any(pred(t) for t in h)
+    attempts = [h for h in hs if has(h, lambda t: t.get("mode") == "write")]
+    valued = [h for h in hs if not has(h, lambda t: t.get("mode") == "write")
+              and has(h, lambda t: t.get("op") == "precall" and t.get("v") == 1)]
+    others = [h for h in hs if not has(h, lambda t: t.get("mode") == "write")
+              and not has(h, lambda t: t.get("op") == "precall" and t.get("v") == 1)]
+    log("EvmFramesGen: %d histories (%d with a write attempt in static context, %d with a value-bearing call of a failing "
+        "precompile)" % (len(hs), len(attempts), len(valued)))
     if quick:
-        # all histories with a write attempt in static context, and every 8th of the others
-        attempts = [h for h in hs if any(t.get("mode") == "write" for t in h)]
-        others = [h for h in hs if not any(t.get("mode") == "write" for t in h)]
-        hs = attempts + others[ctx.seed % 8::8]
+        # every write attempt in static context, every 16th value-bearing failing precompile call, every 48th of the rest
+        hs = attempts + valued[ctx.seed % 16::16] + others[ctx.seed % 48::48]
     else:
+        hs = attempts + valued[ctx.seed % 2::2] + others[ctx.seed % 4::4]
         two = histories(ctx, gens["two"])
-        # the two-transaction histories are far more numerous: an evenly spaced sample of 30 000
-        step = max(1, len(two) // 30000)
-        log("EvmFramesGen: %d one-transaction, %d two-transaction histories (every %d-th replayed)" % (len(hs), len(two), step))
+        step = max(1, len(two) // 20000)
+        log("EvmFramesGen: %d two-transaction histories (every %d-th replayed)" % (len(two), step))
         hs += two[ctx.seed % step::step]
     if not hs:
         raise Inconclusive("TLC generated no call histories")
@@ -107,7 +114,7 @@ def run(ctx):
         tp = os.path.join(ctx.scratch, "trace%d.ndjson" % k)
         traces.append(tp)
         argvs.append([drv, "--out", tp, "--scratch", os.path.join(ctx.scratch, "st%d" % k), "--script", sp,
-                      "--random", str(nrand), "--salt", str(k)])
+                      "--random", str(nrand), "--salt", str(k)] + (["--custom"] if k == 0 else []))
     outs = ctx.run_parallel(argvs, timeout=1500)
     tot = {}
     for o in outs:
@@ -118,7 +125,8 @@ def run(ctx):
                     tot[k] = tot.get(k, 0) + int(v)
     log("c12 drivers: %s" % tot)
     # vacuity: the situations the judgements are about must have occurred
-    for need in ("failed:revert", "failed:oog", "failed:opcode", "failed:write", "failed:none", "logs", "failed_txs"):
+    for need in ("failed:revert", "failed:oog", "failed:opcode", "failed:write", "failed:none", "failed:noframe", "logs", "failed_txs",
+                 "custom_scenarios"):
         if tot.get(need, 0) == 0:
             raise Inconclusive("vacuity: no occurrence of %s in this run" % need)
 
